@@ -317,7 +317,7 @@ def _same(got, want):
 
 
 def run(chk, b, tier):
-    n = 240 if tier == "quick" else 6000
+    n = 240 if tier == "quick" else 30000
     drv = b.apidrv()
     sz = b.sizer()
     scratch = b.scratchdir()
